@@ -128,6 +128,8 @@ def build_pool(np):
         "range": lambda: range(2), "dotdict": lambda: {"a.b": 1}, "badleaf": lambda: [1, Neither()],
         "dictofrow": lambda: {"r": Row({"z": 1})}, "listofuser": lambda: [UserDict({"q": 1}), UserList([2])],
         "myset": lambda: MySet({1}),
+        # non-finite floats: Python's json writes them, and their TYPE is the type of every float
+        "nan": lambda: float("nan"), "inf": lambda: float("inf"), "nanlist": lambda: [1.5, float("nan")], "half": lambda: 0.5,
         # classes created on the fly (every call makes a NEW class, which becomes garbage afterwards):
         # a later class may reuse the address - and id() - of a dead one
         "tmp_dict": lambda: type("TmpD", (dict,), {})({"a": 1}), "tmp_list": lambda: type("TmpL", (list,), {})([1]),
